@@ -46,6 +46,10 @@ def f_args1(t, y, a):
     return a * y - 0.5 * t + 0.25
 
 
+def f_args_def(t, y, a=-0.75, b=-0.5, c=0.25):
+    return a * y + b * t + c
+
+
 def f_args0(t, y):
     return -0.75 * y - 0.5 * t + 0.25
 
@@ -174,7 +178,8 @@ def args_case(case):
     r = Res()
     params = dict(a=-0.75, b=-0.5, c=0.25)
     vals = case["args"]
-    fun = [f_args0, f_args1, f_args2, f_args3][len(vals)]
+    # 'defaults': the right-hand side declares three parameters with defaults and args may be shorter: it binds the FIRST len(args) of them
+    fun = f_args_def if case.get("defaults") else [f_args0, f_args1, f_args2, f_args3][len(vals)]
     full = dict(params)
     for nm, v in zip("abc", vals):
         full[nm] = v
@@ -270,6 +275,8 @@ def run(ctx):
         for span in fwd + [(1.0, -1.0)]:
             for vals in ([], [-1.25], [-1.25, 0.75], [-1.25, 0.75, -2.0], [-0.5, -2.0, 0.75]):
                 cases.append(dict(section="args", method=nm, span=list(span), args=vals))
+                if len(vals) <= 3 and (len(vals) > 0):
+                    cases.append(dict(section="args", method=nm, span=list(span), args=vals, defaults=True))
     # S4: max_step
     for nm in ("RK45", "DOPRI45", "RK4", "Euler", "ABAS5O6H", "ImplicitMidpoint", "RadauIIA5", "RK87") + (() if ctx.quick else ("BackwardEuler", "GaussLegendre4", "RK1412", "AHE")):
         for span in fwd + [(1.0, -1.0), (2.0, 0.5)]:
